@@ -500,6 +500,8 @@ class FCtx(object):
                     target = r[1]
             elif func[0] == "attr" and selfname is not None and func[1] == ("param", selfname) and fref.cls is not None:
                 lk = fref.cls.lookup(func[2])
+                if lk and lk[0] is not fref.cls and "%s.%s" % (fref.cls.qname, func[2]) in KNOWN_FUNCS:
+                    return None          # a method the rules know on this class, now inherited from a base class / mixin
                 if lk and func[2] not in lk[0].properties:
                     target = FuncRef(lk[0].module, lk[0], lk[1])
                     if func[2] not in lk[0].staticmethods:
@@ -1556,6 +1558,30 @@ def fold_small(t):
     return None
 
 
+def flat_atoms(guards):
+    """the guards of an event as a flat conjunction of (term, polarity) atoms: `if a and b` and `if a: if b` alike"""
+    out = []
+    for g in guards:
+        t, pol = T.strip_not(g[0], g[1])
+        if pol and t[0] == "boolop" and t[1] == "and":
+            for x in t[2]:
+                out.append(T.strip_not(x, True))
+        elif not pol and t[0] == "boolop" and t[1] == "or":
+            for x in t[2]:
+                out.append(T.strip_not(x, False))
+        else:
+            out.append((t, pol))
+    return out
+
+
+def canon_guard_pair(g):
+    """(term, polarity) with negations stripped and negative comparison operators turned positive"""
+    t, pol = T.strip_not(g[0], g[1])
+    if t[0] == "cmp" and len(t[1]) == 1 and t[1][0] in _POS:
+        t, pol = ("cmp", (_POS[t[1][0]],), t[2]), not pol
+    return t, pol
+
+
 def own_guards(cx, ev, kinds=("raise", "return", "continue", "break")):
     """guards of an event that are real conditions of it, i.e. not merely the negation of an earlier early exit
     (``if bad: raise`` / ``if done: return`` / ``continue``) in the same block.  ``kinds`` restricts which early exits count
@@ -1626,6 +1652,23 @@ def searches(cx):
                 test = T.bool_form(T.subst(comp[2], lambda x: elem if x == ("bound", name) else None))
                 out.append(Search(comp[3][0][1], elem, test, r, form_d))
                 continue
+        # (e) ``v = next((f(x) for x in coll if test(x)), None)`` and ``if v is None: raise``
+        if len(own) == 1:
+            t, pol = canon_guard_pair(own[0])
+            if pol and t[0] == "cmp" and t[1] == ("is",) and ("const", None) in t[2]:
+                v = [y for y in t[2] if y != ("const", None)]
+                if len(v) == 1 and v[0][0] == "call" and v[0][1] == ("global", "next") and len(v[0][2]) == 2 and v[0][2][1] == ("const", None) \
+                        and v[0][2][0][0] == "comp" and v[0][2][0][1] == "gen" and len(v[0][2][0][3]) == 1:
+                    comp = v[0][2][0]
+                    name = comp[3][0][0][1]
+                    elem = ("elem", comp[3][0][1], "next")
+                    put = lambda z: T.subst(z, lambda x: elem if x == ("bound", name) else None)
+                    conds = tuple(put(c) for c in comp[3][0][2])
+                    test = ("const", True) if not conds else conds[0] if len(conds) == 1 else ("boolop", "and", conds)
+                    sr = Search(comp[3][0][1], elem, test, r, "next")
+                    sr.value, sr.term = put(comp[2]), v[0]
+                    out.append(sr)
+                    continue
         for lid, coll in loops.items():
             base = tuple(cx.ex.loop_guards.get(lid, ()))
             in_loop = [ev for ev in cx.events if ev.loops and ev.loops[0][0] == lid]
